@@ -573,20 +573,32 @@ impl Compress {
     }
 
     /// Returns the number of compression pointers followed when reading the
-    /// trusted name starting at `offset`.
+    /// name starting at `offset`, or `DNS_MAX_HOSTNAME_INDIRECTIONS` if there
+    /// are at least that many (or if the name doesn't end within the buffer).
     fn indirections(packet: &[u8], mut offset: usize) -> usize {
+        let max_indirections = DNS_MAX_HOSTNAME_INDIRECTIONS as usize;
         let mut indirections = 0;
-        loop {
-            match packet[offset] {
-                0 => break,
-                len if len & 0xc0 == 0xc0 => {
-                    offset = (BigEndian::read_u16(&packet[offset..]) & 0x3fff) as usize;
-                    indirections += 1;
+        let mut labels = 0;
+        while indirections < max_indirections
+            && labels <= DNS_MAX_HOSTNAME_LEN
+            && offset < packet.len()
+        {
+            let len = packet[offset];
+            if len == 0 {
+                return indirections;
+            }
+            if len & 0xc0 == 0xc0 {
+                if packet.len() - offset < 2 {
+                    break;
                 }
-                len => offset += len as usize + 1,
+                offset = (BigEndian::read_u16(&packet[offset..]) & 0x3fff) as usize;
+                indirections += 1;
+            } else {
+                offset += len as usize + 1;
+                labels += 1;
             }
         }
-        indirections
+        max_indirections
     }
 
     /// Compress a name starting at `offset` using the suffix dictionary `dict`
